@@ -1,87 +1,53 @@
 /-
 C06 — property theorems: "MRS isomorphism is exact and renaming-invariant; bag comparison partitions".
 
-Only statements and their assembly from `Lemmas.lean` live here.
+Only statements and their assembly from `Lemmas.lean` / `Complete.lean` live here.  The specification
+(`IsIsoVia`, `IsIso`, `WFAdj`) is in `Spec.lean`.
 
 What is proved for ALL inputs of the model
-  * soundness of the matcher ("a changed predicate, argument, constant, constraint or property is
-    never reported as isomorphic"): every complete mapping `_vf2` returns, and hence every `True` of
-    `is_isomorphic`, is a label- and edge-preserving bijection between the two encoding graphs
-    (`matcher_sound`, `vf2_sound`, `isIsomorphic_sound`);
-  * the search never gives up while a feasible extension exists (`completeness_partial`);
-  * bag comparison: the two counting identities for ANY comparison predicate, and "a bag compared with
-    a renamed, shuffled copy of itself is entirely shared" for any equivalence relation
-    (`compareBags_partition`, `compareBags_perfect`, `compareBags_renamed_copy`).
-What is NOT proved (decided by the direct oracle of harness/c06.py on the real code): completeness of
-the matcher (no false negatives, hence reflexivity, symmetry, invariance under renaming/reordering)
-and the reading of a graph isomorphism as an MRS isomorphism.
+  * soundness ("a changed predicate, argument, constant, constraint or property is never reported as
+    isomorphic"): every complete mapping `_vf2` returns, hence every `True` of `is_isomorphic`, is a
+    label- and edge-preserving bijection of the two encoding graphs (`matcher_sound`, `vf2_sound`,
+    `isIsomorphic_sound`);
+  * completeness ("equivalent structures are never reported as different"): if the encoding graphs
+    are isomorphic the search returns a complete mapping that passes the final test
+    (`matcher_complete`, `completeness_partial` is the exhaustiveness lemma it rests on);
+  * exactness: `is_isomorphic(m1, m2) = True` iff the encoding graphs are isomorphic
+    (`isIsomorphic_iff`), hence reflexive, symmetric, transitive (`isIsomorphic_refl/_symm/_trans`)
+    and dependent only on the isomorphism classes of the graphs (`isIsomorphic_invariant`);
+  * bag comparison: the counting identities for ANY comparison predicate, "entirely shared" for any
+    equivalence relation, and its instance for `is_isomorphic` (`compareBags_mrs_renamed_copy`).
+What is NOT proved (decided by the direct oracle of harness/c06.py on the real code): the reading of a
+graph isomorphism as an MRS isomorphism — in particular that renaming variables / reordering
+predications of an MRS yields an isomorphic encoding graph, and that isomorphic MRSs pass the four
+size pre-checks.  The encodings provably never raise (`isIsomorphic_total`).  Hypothesis that stays: edge
+labels are clean (`cleanGraph`: no role named `--…`; needed for soundness only, `cleanLabels_needed`).
 -/
-import Verif.C06.Lemmas
+import Verif.C06.Complete
 
 namespace Verif.C06
 open Verif.Sem
-
-/-! ## the specification: a structure-preserving bijection -/
-
-/-- `μ` (a list of pairs `(n, m)`) is a bijection from the nodes of `g1` onto the nodes of `g2` that
-preserves node labels (predicate, constant, properties) and edge labels (roles, scope membership,
-constraints) — in both directions, self loops included, absent edges mapped to absent edges.
-`g1`, `g2` are the graphs of `_make_mrs_isograph`, BEFORE inverse edges are added. -/
-structure IsIsoVia (μ : Mapping) (g1 g2 : IsoGraph) : Prop where
-  functional : (μ.map (·.1)).Nodup
-  injective : (μ.map (·.2)).Nodup
-  total : ∀ n, n ∈ dkeys g1 ↔ n ∈ μ.map (·.1)
-  onto : ∀ m, m ∈ dkeys g2 ↔ m ∈ μ.map (·.2)
-  nodeLabel : ∀ p ∈ μ, (edge g1 p.1 none).getD [] = (edge g2 p.2 none).getD []
-  edgeLabel : ∀ p ∈ μ, ∀ q ∈ μ, edge g1 p.1 (some q.1) = edge g2 p.2 (some q.2)
 
 /-! ## "… so a changed predicate, argument, constant, constraint or property is never reported as
 isomorphic" — soundness of the matcher -/
 
 /-- Every complete mapping found by the search that passes the final test `set(iso) == set(g1)` is a
-label- and edge-preserving bijection of the two graphs.  Hypotheses: both `_vf2_inv_map` calls
-succeeded; no edge label starts with `--` or contains ` --`
-(the marker `_vf2_inv_map` uses for inverse edges — without this two different pairs of opposite
-labels can be concatenated to the same string). -/
+label- and edge-preserving bijection of the two graphs (`IsIsoVia`, Spec.lean).  Hypotheses: both
+`_vf2_inv_map` calls succeeded; the graphs are dicts of dicts; no edge label starts with `--` or
+contains ` --` (the marker `_vf2_inv_map` uses for inverse edges). -/
 theorem matcher_sound (g1 g2 a1 a2 : IsoGraph)
-    (h1 : invMap g1 = .ok a1) (h2 : invMap g2 = .ok a2)
+    (h1 : invMap g1 = .ok a1) (h2 : invMap g2 = .ok a2) (hwf1 : WFAdj g1) (hwf2 : WFAdj g2)
     (hl1 : cleanGraph g1 = true) (hl2 : cleanGraph g2 = true)
     (μ : Mapping) (hs : search a1 a2 a2.length [] = some μ) (hacc : accept μ a1 = true) :
     IsIsoVia μ g1 g2 := by
-  unfold invMap at h1 h2
-  by_cases hc1 : closed g1 = true
-  · by_cases hc2 : closed g2 = true
-    · simp only [hc1, hc2, if_true, Except.ok.injEq] at h1 h2
-      subst h1; subst h2
-      obtain ⟨hg, hlen⟩ := search_sound hc1 hc2 hl1 hl2 _ [] μ (good_nil g1 g2) hs
-      simp only [accept, Bool.and_eq_true, List.all_eq_true, List.contains_iff_mem] at hacc
-      rw [dkeys_invMapRaw] at hacc
-      refine ⟨hg.keysNodup, hg.valsNodup, ?_, ?_, hg.nodeLbl, hg.edges⟩
-      · intro n
-        constructor
-        · exact hacc.2 n
-        · intro hn
-          obtain ⟨p, hp, rfl⟩ := List.mem_map.1 hn
-          exact hacc.1 p hp
-      · intro m
-        constructor
-        · intro hm
-          refine nodup_covers (μ.map (·.2)) (dkeys g2) hg.valsNodup ?_ ?_ m hm
-          · intro a ha
-            obtain ⟨p, hp, rfl⟩ := List.mem_map.1 ha
-            exact hg.valsIn p hp
-          · simp only [List.length_nil, Nat.zero_add, length_invMapRaw] at hlen
-            simp [dkeys, hlen]
-        · intro hm
-          obtain ⟨p, hp, rfl⟩ := List.mem_map.1 hm
-          exact hg.valsIn p hp
-    · simp [hc2] at h2
-  · simp [hc1] at h1
+  obtain ⟨hc1, rfl⟩ := invMap_ok h1
+  obtain ⟨hc2, rfl⟩ := invMap_ok h2
+  exact matcher_sound_raw hc1 hc2 hwf1 hwf2 hl1 hl2 hs hacc
 
 /-- The same for the function `_vf2` itself: whenever the mapping it returns is complete
 (`len(mapping) == len(g2)`) and covers `g1`, it is a structure-preserving bijection. -/
 theorem vf2_sound (g1 g2 a1 a2 : IsoGraph)
-    (h1 : invMap g1 = .ok a1) (h2 : invMap g2 = .ok a2)
+    (h1 : invMap g1 = .ok a1) (h2 : invMap g2 = .ok a2) (hwf1 : WFAdj g1) (hwf2 : WFAdj g2)
     (hl1 : cleanGraph g1 = true) (hl2 : cleanGraph g2 = true)
     (hlen : (vf2 a1 a2).length = a2.length) (hacc : accept (vf2 a1 a2) a1 = true) :
     IsIsoVia (vf2 a1 a2) g1 g2 := by
@@ -89,10 +55,8 @@ theorem vf2_sound (g1 g2 a1 a2 : IsoGraph)
   | some μ =>
     have hv : vf2 a1 a2 = μ := by simp [vf2, hs]
     rw [hv] at hacc ⊢
-    exact matcher_sound g1 g2 a1 a2 h1 h2 hl1 hl2 μ hs hacc
+    exact matcher_sound g1 g2 a1 a2 h1 h2 hwf1 hwf2 hl1 hl2 μ hs hacc
   | none =>
-    -- the failed search returns the empty mapping; complete means `g2` is empty, but then the
-    -- search succeeds at once
     exfalso
     have hv : vf2 a1 a2 = [] := by simp [vf2, hs]
     rw [hv] at hlen
@@ -100,16 +64,42 @@ theorem vf2_sound (g1 g2 a1 a2 : IsoGraph)
     rw [this] at hs
     simp [search] at hs
 
-/-- **Main clause.**  Whenever `is_isomorphic(m1, m2, properties)` answers `True`, the two encoding
-graphs exist and (their edge labels being clean) there is a bijection between their nodes —
-variables and predications — that preserves node labels (normalised predicate, constant,
-properties when requested) and every labelled edge (role-labelled arguments, scope membership,
-handle and individual constraints).  No hypothesis on the MRSs: the degenerate case of a failed
-search on an empty graph is excluded by the size pre-checks. -/
+/-! ## "equivalent structures are never reported as different" — completeness of the matcher -/
+
+/-- The search is exhaustive: it never gives up while some candidate of the current state is feasible
+and leads on (`P` = any property of partial mappings that always offers such a candidate). -/
+theorem completeness_partial (a1 a2 : IsoGraph) (P : Mapping → Prop)
+    (hstep : ∀ mp, P mp → mp.length < a2.length →
+      ∃ c ∈ candidates mp a1 a2, feasible mp a1 a2 c.1 c.2 = true ∧ P (c :: mp)) :
+    ∀ (k : Nat) (mp : Mapping), P mp → mp.length + k = a2.length →
+      ∃ μ, search a1 a2 k mp = some μ :=
+  search_exhaustive a1 a2 P hstep
+
+/-- **Completeness.**  If the two encoding graphs are isomorphic, `_vf2` returns a complete mapping
+and the final test accepts it.  Proof: "the current mapping is part of the isomorphism φ" is kept by
+the search — the pair (φ⁻¹(m), m) for the target `m = min T2` (resp. the least unmapped node) is in
+the candidate list because φ maps the frontier `T1` onto `T2`, and every feasibility test is
+necessary under φ: equal node-label entry, equal degree (φ is a bijection between the neighbourhoods
+in the graphs WITH inverse edges, `someKeys_aug_eq`), equal self-loop label, two-way consistency.
+The look-ahead test of `_vf2_feasible` is vacuous in the code (see `Model.feasible`). -/
+theorem matcher_complete (g1 g2 a1 a2 : IsoGraph)
+    (h1 : invMap g1 = .ok a1) (h2 : invMap g2 = .ok a2) (hwf1 : WFAdj g1) (hwf2 : WFAdj g2)
+    (hiso : IsIso g1 g2) :
+    ∃ μ, search a1 a2 a2.length [] = some μ ∧ vf2 a1 a2 = μ ∧ accept μ a1 = true := by
+  obtain ⟨hc1, rfl⟩ := invMap_ok h1
+  obtain ⟨hc2, rfl⟩ := invMap_ok h2
+  obtain ⟨μ, hs, hacc⟩ := matcher_complete_raw hc1 hc2 hwf1 hwf2 hiso
+  exact ⟨μ, hs, by simp [vf2, hs], hacc⟩
+
+/-! ## "on small structures its verdict equals that of an exhaustive search for a structure-preserving
+bijection" — for the model: on ALL structures -/
+
+/-- Whenever `is_isomorphic(m1, m2, properties)` answers `True`, the two encoding graphs exist and
+(their edge labels being clean) are isomorphic.  No hypothesis on the MRSs. -/
 theorem isIsomorphic_sound (properties : Bool) (m1 m2 : MRS)
     (h : isIsomorphic properties m1 m2 = .ok true) :
     ∃ g1 g2, mkIsoGraph properties m1 = .ok g1 ∧ mkIsoGraph properties m2 = .ok g2 ∧
-      (cleanGraph g1 = true → cleanGraph g2 = true → ∃ μ, IsIsoVia μ g1 g2) := by
+      (cleanGraph g1 = true → cleanGraph g2 = true → IsIso g1 g2) := by
   unfold isIsomorphic at h
   by_cases hsz : sizesDiffer m1 m2 = true
   · simp [hsz] at h
@@ -128,85 +118,130 @@ theorem isIsomorphic_sound (properties : Bool) (m1 m2 : MRS)
           | ok a2 =>
             simp only [hg1, hg2, ha1, ha2, Except.ok.injEq] at h
             refine ⟨g1, g2, rfl, rfl, fun hl1 hl2 => ?_⟩
-            cases hs : search a1 a2 a2.length [] with
-            | some μ =>
-              have hv : vf2 a1 a2 = μ := by simp [vf2, hs]
-              rw [hv] at h
-              exact ⟨μ, matcher_sound g1 g2 a1 a2 ha1 ha2 hl1 hl2 μ hs h⟩
-            | none =>
-              exfalso
-              have hv : vf2 a1 a2 = [] := by simp [vf2, hs]
-              rw [hv] at h
-              -- `set({}) == set(g1)`: the first graph has no node …
-              have hk1 : dkeys a1 = [] := by
-                simp only [accept, List.all_nil, Bool.true_and, List.map_nil, List.contains_nil,
-                  List.all_eq_true] at h
-                cases hd : dkeys a1 with
-                | nil => rfl
-                | cons x xs =>
-                  have := h x (by rw [hd]; exact List.mem_cons_self)
-                  cases this
-              have ha1' : a1 = invMapRaw g1 := by
-                unfold invMap at ha1
-                by_cases hc : closed g1 = true
-                · simp only [hc, if_true, Except.ok.injEq] at ha1; exact ha1.symm
-                · simp [hc] at ha1
-              have ha2' : a2 = invMapRaw g2 := by
-                unfold invMap at ha2
-                by_cases hc : closed g2 = true
-                · simp only [hc, if_true, Except.ok.injEq] at ha2; exact ha2.symm
-                · simp [hc] at ha2
-              rw [ha1', dkeys_invMapRaw, mkIsoGraph_keys hg1] at hk1
-              obtain ⟨hv1, hi1⟩ := initGraph_eq_nil (dkeys_eq_nil hk1)
-              -- … so m1 has neither variables nor predications, and by the size pre-checks neither has m2
-              simp only [sizesDiffer, Bool.or_eq_true, bne_iff_ne, ne_eq, not_or, Decidable.not_not] at hsz
-              obtain ⟨⟨⟨hr, _⟩, _⟩, hvl⟩ := hsz
-              have hr1 : m1.rels.length = 0 := by rw [← ids_length, hi1]; rfl
-              have hi2 : m2.ids = [] := by
-                apply List.eq_nil_of_length_eq_zero
-                rw [ids_length, ← hr, hr1]
-              have hv2 : filledVars m2 = [] := by
-                apply List.eq_nil_of_length_eq_zero
-                rw [← hvl, hv1]; rfl
-              have hg2nil : g2 = [] := by
-                apply dkeys_eq_nil
-                rw [mkIsoGraph_keys hg2]
-                simp [initGraph, hi2, hv2, dkeys]
-              -- but then the search succeeds at once
-              rw [ha2', hg2nil] at hs
-              simp [invMapRaw, search] at hs
+            obtain ⟨hc1, rfl⟩ := invMap_ok ha1
+            obtain ⟨hc2, rfl⟩ := invMap_ok ha2
+            have hsz' : sizesDiffer m1 m2 = false := by simpa using hsz
+            exact (accept_vf2_iff hc1 hc2 (mkIsoGraph_wf hg1) (mkIsoGraph_wf hg2) hl1 hl2
+              (sizes_empty hsz' hg1 hg2)).1 h
 
-/-! ## completeness (partial) -/
+/-- **Exactness.**  For two MRSs whose encodings succeed, with clean edge labels and passing the four
+size pre-checks, `is_isomorphic` answers `True` exactly when the encoding graphs are isomorphic, and
+`False` otherwise (it never raises). -/
+theorem isIsomorphic_iff (properties : Bool) (m1 m2 : MRS) (g1 g2 a1 a2 : IsoGraph)
+    (hg1 : mkIsoGraph properties m1 = .ok g1) (hg2 : mkIsoGraph properties m2 = .ok g2)
+    (ha1 : invMap g1 = .ok a1) (ha2 : invMap g2 = .ok a2)
+    (hl1 : cleanGraph g1 = true) (hl2 : cleanGraph g2 = true)
+    (hsz : sizesDiffer m1 m2 = false) :
+    (isIsomorphic properties m1 m2 = .ok true ↔ IsIso g1 g2)
+    ∧ (isIsomorphic properties m1 m2 = .ok false ↔ ¬ IsIso g1 g2) := by
+  rw [isIsomorphic_eq hg1 hg2 ha1 ha2]
+  obtain ⟨hc1, rfl⟩ := invMap_ok ha1
+  obtain ⟨hc2, rfl⟩ := invMap_ok ha2
+  have key := accept_vf2_iff hc1 hc2 (mkIsoGraph_wf hg1) (mkIsoGraph_wf hg2) hl1 hl2
+    (sizes_empty hsz hg1 hg2)
+  simp only [hsz, Bool.false_eq_true, if_false, Except.ok.injEq]
+  constructor
+  · exact key
+  · rw [← key]; simp
 
--- FULL STATEMENT (not proved): IsIsoVia φ g1 g2 → invMap g1 = .ok a1 → invMap g2 = .ok a2 →
---   ∃ μ, search a1 a2 a2.length [] = some μ ∧ accept μ a1 = true
--- Missing: (a) under an isomorphism φ extending the current mapping, the pair (φ⁻¹(m), m) for the
--- chosen m is among `candidates`; (b) each test of `feasible` is necessary under φ (equal degree
--- is the laborious one).  The direct oracle (exhaustive bijection search on ≤ 7 predications)
--- carries this clause.
-/-- The search is exhaustive: it never gives up while some candidate of the current state is feasible
-and leads on.  `Ext` is any property of partial mappings ("extends to the isomorphism φ") that
-always offers a feasible candidate preserving it. -/
-theorem completeness_partial (a1 a2 : IsoGraph) (Ext : Mapping → Prop)
-    (hstep : ∀ mp, Ext mp → mp.length < a2.length →
-      ∃ c ∈ candidates mp a1 a2, feasible mp a1 a2 c.1 c.2 = true ∧ Ext (c :: mp)) :
-    ∀ (k : Nat) (mp : Mapping), Ext mp → mp.length + k = a2.length →
-      ∃ μ, search a1 a2 k mp = some μ := by
-  intro k
-  induction k with
-  | zero => intro mp _ _; exact ⟨mp, rfl⟩
-  | succ k ih =>
-    intro mp he hl
-    obtain ⟨c, hc, hf, he'⟩ := hstep mp he (by omega)
-    obtain ⟨μ', hμ'⟩ := ih (c :: mp) he' (by simp only [List.length_cons]; omega)
-    simp only [search]
-    cases hfs : (candidates mp a1 a2).findSome?
-        (fun c => if feasible mp a1 a2 c.1 c.2 = true then search a1 a2 k (c :: mp) else none) with
-    | some μ => exact ⟨μ, rfl⟩
-    | none =>
-      exfalso
-      have := List.findSome?_eq_none_iff.1 hfs c hc
-      simp [hf, hμ'] at this
+/-- completeness at the level of `is_isomorphic` needs no clean labels -/
+theorem isIsomorphic_complete (properties : Bool) (m1 m2 : MRS) (g1 g2 a1 a2 : IsoGraph)
+    (hg1 : mkIsoGraph properties m1 = .ok g1) (hg2 : mkIsoGraph properties m2 = .ok g2)
+    (ha1 : invMap g1 = .ok a1) (ha2 : invMap g2 = .ok a2)
+    (hsz : sizesDiffer m1 m2 = false) (hiso : IsIso g1 g2) :
+    isIsomorphic properties m1 m2 = .ok true := by
+  rw [isIsomorphic_eq hg1 hg2 ha1 ha2]
+  obtain ⟨μ, _, hv, hacc⟩ := matcher_complete g1 g2 a1 a2 ha1 ha2 (mkIsoGraph_wf hg1) (mkIsoGraph_wf hg2) hiso
+  simp [hsz, hv, hacc]
+
+/-! ## "MRS isomorphism is reflexive and symmetric, is unaffected by consistently renaming variables
+and reordering predications and constraints" -/
+
+/-- `_make_mrs_isograph` and `_vf2_inv_map` never raise (every key they use is a node, by
+`_fill_variables`), so `is_isomorphic` always returns a Boolean -/
+theorem isIsomorphic_total (properties : Bool) (m1 m2 : MRS) :
+    ∃ b, isIsomorphic properties m1 m2 = .ok b := by
+  obtain ⟨g1, hg1, hc1⟩ := mkIsoGraph_ok properties m1
+  obtain ⟨g2, hg2, hc2⟩ := mkIsoGraph_ok properties m2
+  have ha1 : invMap g1 = .ok (invMapRaw g1) := by simp [invMap, hc1]
+  have ha2 : invMap g2 = .ok (invMapRaw g2) := by simp [invMap, hc2]
+  exact ⟨_, isIsomorphic_eq hg1 hg2 ha1 ha2⟩
+
+/-- the edge labels of the encoding graph are clean (no role or relation named `--…` / containing
+` --`); the encoding graph itself always exists (`mkIsoGraph_ok`) -/
+def Encodable (properties : Bool) (m : MRS) : Prop :=
+  ∀ g, mkIsoGraph properties m = .ok g → cleanGraph g = true
+
+/-- **reflexive** — for every MRS, without any hypothesis -/
+theorem isIsomorphic_refl (properties : Bool) (m : MRS) : isIsomorphic properties m m = .ok true := by
+  obtain ⟨g, hg, hc⟩ := mkIsoGraph_ok properties m
+  have ha : invMap g = .ok (invMapRaw g) := by simp [invMap, hc]
+  exact isIsomorphic_complete properties m m g g _ _ hg hg ha ha (sizesDiffer_self m)
+    (isIso_refl (mkIsoGraph_wf hg).1)
+
+/-- **symmetric** -/
+theorem isIsomorphic_symm (properties : Bool) (m1 m2 : MRS)
+    (h1 : Encodable properties m1) (h2 : Encodable properties m2)
+    (h : isIsomorphic properties m1 m2 = .ok true) : isIsomorphic properties m2 m1 = .ok true := by
+  obtain ⟨g1, hg1, hc1⟩ := mkIsoGraph_ok properties m1
+  obtain ⟨g2, hg2, hc2⟩ := mkIsoGraph_ok properties m2
+  have ha1 : invMap g1 = .ok (invMapRaw g1) := by simp [invMap, hc1]
+  have ha2 : invMap g2 = .ok (invMapRaw g2) := by simp [invMap, hc2]
+  have hsz : sizesDiffer m1 m2 = false := by
+    cases hs : sizesDiffer m1 m2 with
+    | false => rfl
+    | true => simp [isIsomorphic, hs] at h
+  have hiso := ((isIsomorphic_iff properties m1 m2 g1 g2 _ _ hg1 hg2 ha1 ha2 (h1 g1 hg1) (h2 g2 hg2) hsz).1).1 h
+  exact isIsomorphic_complete properties m2 m1 g2 g1 _ _ hg2 hg1 ha2 ha1 (sizesDiffer_symm hsz)
+    (isIso_symm hiso)
+
+/-- **transitive** -/
+theorem isIsomorphic_trans (properties : Bool) (m1 m2 m3 : MRS)
+    (h1 : Encodable properties m1) (h2 : Encodable properties m2) (h3 : Encodable properties m3)
+    (h12 : isIsomorphic properties m1 m2 = .ok true) (h23 : isIsomorphic properties m2 m3 = .ok true) :
+    isIsomorphic properties m1 m3 = .ok true := by
+  obtain ⟨g1, hg1, hc1⟩ := mkIsoGraph_ok properties m1
+  obtain ⟨g2, hg2, hc2⟩ := mkIsoGraph_ok properties m2
+  obtain ⟨g3, hg3, hc3⟩ := mkIsoGraph_ok properties m3
+  have ha1 : invMap g1 = .ok (invMapRaw g1) := by simp [invMap, hc1]
+  have ha2 : invMap g2 = .ok (invMapRaw g2) := by simp [invMap, hc2]
+  have ha3 : invMap g3 = .ok (invMapRaw g3) := by simp [invMap, hc3]
+  have hsz12 : sizesDiffer m1 m2 = false := by
+    cases hs : sizesDiffer m1 m2 with
+    | false => rfl
+    | true => simp [isIsomorphic, hs] at h12
+  have hsz23 : sizesDiffer m2 m3 = false := by
+    cases hs : sizesDiffer m2 m3 with
+    | false => rfl
+    | true => simp [isIsomorphic, hs] at h23
+  have i12 := ((isIsomorphic_iff properties m1 m2 g1 g2 _ _ hg1 hg2 ha1 ha2 (h1 g1 hg1) (h2 g2 hg2) hsz12).1).1 h12
+  have i23 := ((isIsomorphic_iff properties m2 m3 g2 g3 _ _ hg2 hg3 ha2 ha3 (h2 g2 hg2) (h3 g3 hg3) hsz23).1).1 h23
+  exact isIsomorphic_complete properties m1 m3 g1 g3 _ _ hg1 hg3 ha1 ha3
+    (sizesDiffer_trans hsz12 hsz23) (isIso_trans i12 i23)
+
+/-- The verdict depends only on the isomorphism classes of the two encoding graphs: replacing either
+MRS by one whose encoding graph is isomorphic (and whose four sizes are the same) does not change
+it.  Renaming variables and reordering predications / constraints are such replacements — THAT
+step (an MRS-level renaming yields an isomorphic graph) is not proved here; the direct oracle checks
+it on the real code. -/
+theorem isIsomorphic_invariant (properties : Bool) (m1 m2 m1' m2' : MRS)
+    (g1 g2 g1' g2' a1 a2 a1' a2' : IsoGraph)
+    (hg1 : mkIsoGraph properties m1 = .ok g1) (hg2 : mkIsoGraph properties m2 = .ok g2)
+    (hg1' : mkIsoGraph properties m1' = .ok g1') (hg2' : mkIsoGraph properties m2' = .ok g2')
+    (ha1 : invMap g1 = .ok a1) (ha2 : invMap g2 = .ok a2)
+    (ha1' : invMap g1' = .ok a1') (ha2' : invMap g2' = .ok a2')
+    (hl1 : cleanGraph g1 = true) (hl2 : cleanGraph g2 = true)
+    (hl1' : cleanGraph g1' = true) (hl2' : cleanGraph g2' = true)
+    (hsz : sizesDiffer m1 m2 = false) (hsz' : sizesDiffer m1' m2' = false)
+    (i1 : IsIso g1 g1') (i2 : IsIso g2 g2') :
+    isIsomorphic properties m1 m2 = isIsomorphic properties m1' m2' := by
+  have e := isIsomorphic_iff properties m1 m2 g1 g2 a1 a2 hg1 hg2 ha1 ha2 hl1 hl2 hsz
+  have e' := isIsomorphic_iff properties m1' m2' g1' g2' a1' a2' hg1' hg2' ha1' ha2' hl1' hl2' hsz'
+  by_cases hiso : IsIso g1 g2
+  · rw [e.1.2 hiso, e'.1.2 (isIso_trans (isIso_symm i1) (isIso_trans hiso i2))]
+  · have hiso' : ¬ IsIso g1' g2' := fun h =>
+      hiso (isIso_trans i1 (isIso_trans h (isIso_symm i2)))
+    rw [e.2.2 hiso, e'.2.2 hiso']
 
 /-! ## "Comparing two bags of MRSs returns counts with unique-test + shared = size of test and
 shared + unique-gold = size of gold" -/
@@ -230,9 +265,8 @@ theorem compareBags_perfect {α : Type} (iso : α → α → Bool)
   simp [compareBags, compareBagsLists, foldl_bagStep_perfect iso refl symm trans test [] [] gold hcount]
 
 /-- the clause as worded: `gold` is a shuffled (`Perm`) list of copies `f t` of the members of `test`,
-each copy isomorphic to its original (`f` = renaming variables, reordering predications).  That
-`is_isomorphic` is an equivalence relation under which a renamed copy is isomorphic is the
-(unproved, oracle-checked) completeness of the matcher. -/
+each copy isomorphic to its original (`f` = renaming variables, reordering predications).  The instance
+for `is_isomorphic` itself is `compareBags_mrs_renamed_copy` below. -/
 theorem compareBags_renamed_copy {α : Type} (iso : α → α → Bool)
     (refl : ∀ a, iso a a = true) (symm : ∀ a b, iso a b = true → iso b a = true)
     (trans : ∀ a b c, iso a b = true → iso b c = true → iso a c = true)
@@ -258,6 +292,38 @@ theorem compareBags_renamed_copy {α : Type} (iso : α → α → Bool)
           rw [hxt] at this; cases this
     have ih' := ih (fun t ht => hcopy t (List.mem_cons_of_mem _ ht))
     simp only [List.map_cons, List.countP_cons, ih', hx]
+
+/-- `is_isomorphic` as the comparison predicate of `compare_bags`, on encodable MRSs -/
+def isoB (properties : Bool) (a b : {m : MRS // Encodable properties m}) : Bool :=
+  match isIsomorphic properties a.1 b.1 with
+  | .ok true => true
+  | _ => false
+
+/-- "a bag compared with a renamed, shuffled copy of itself is entirely shared", for `is_isomorphic`
+itself: `gold` is a shuffled list of copies `f t` that `is_isomorphic` accepts as isomorphic to their
+originals.  The equivalence-relation hypotheses of `compareBags_renamed_copy` are discharged by
+`isIsomorphic_refl/_symm/_trans`. -/
+theorem compareBags_mrs_renamed_copy (properties : Bool)
+    (test gold : List {m : MRS // Encodable properties m})
+    (f : {m : MRS // Encodable properties m} → {m : MRS // Encodable properties m})
+    (hcopy : ∀ t ∈ test, isIsomorphic properties t.1 (f t).1 = .ok true)
+    (hshuffle : (test.map f).Perm gold) :
+    compareBags (isoB properties) test gold = (0, test.length, 0) := by
+  have hb : ∀ a b, isoB properties a b = true ↔ isIsomorphic properties a.1 b.1 = .ok true := by
+    intro a b
+    unfold isoB
+    cases h : isIsomorphic properties a.1 b.1 with
+    | error e => simp
+    | ok v => cases v <;> simp
+  apply compareBags_renamed_copy (isoB properties) _ _ _ test gold f _ hshuffle
+  · intro a
+    exact (hb a a).2 (isIsomorphic_refl properties a.1)
+  · intro a b h
+    exact (hb b a).2 (isIsomorphic_symm properties a.1 b.1 a.2 b.2 ((hb a b).1 h))
+  · intro a b c h1 h2
+    exact (hb a c).2 (isIsomorphic_trans properties a.1 b.1 c.1 a.2 b.2 c.2 ((hb a b).1 h1) ((hb b c).1 h2))
+  · intro t ht
+    exact (hb t (f t)).2 (hcopy t ht)
 
 /-! ## non-vacuity and regression instances (tests, labelled as such) -/
 
@@ -285,6 +351,14 @@ def gMutualRenamed : IsoGraph :=
 example : cleanGraph gMutual = true ∧ cleanGraph gMutualRenamed = true := by decide
 example : (invMap gMutual).toOption.isSome = true := by decide
 example : accept (vf2 (invMapRaw gMutual) (invMapRaw gMutualRenamed)) (invMapRaw gMutual) = true := by decide
+-- the hypotheses of the exactness / completeness theorems are satisfiable, and a renamed copy is
+-- isomorphic in the sense of the specification
+example : IsIso gMutual gMutualRenamed :=
+  (accept_vf2_iff (g1 := gMutual) (g2 := gMutualRenamed) (by decide) (by decide)
+    ⟨by decide, by decide⟩ ⟨by decide, by decide⟩ (by decide) (by decide) (by intro h; cases h)).1 (by decide)
+example : ¬ IsIso gMutual gMutualDropped := fun h =>
+  absurd ((accept_vf2_iff (g1 := gMutual) (g2 := gMutualDropped) (by decide) (by decide)
+    ⟨by decide, by decide⟩ ⟨by decide, by decide⟩ (by decide) (by decide) (by intro h; cases h)).2 h) (by decide)
 -- F24 regression: after the repair the two edges between e1 and x2 carry both labels and the
 -- structure with the dropped argument is rejected, in both argument orders
 example : vf2 (invMapRaw gMutual) (invMapRaw gMutualDropped) = [] := by decide
